@@ -46,7 +46,8 @@ public:
 
     void finish() {
         for (ndsize_t i = 0; i < nelms; i++) {
-            data[i] = buffer[i];
+            // a variable-length string that was never written reads back as a null pointer
+            data[i] = buffer[i] != nullptr ? buffer[i] : "";
         }
     }
 
